@@ -418,7 +418,42 @@ func (g *gen) typeForDecl() string {
 	return g.pick(basicTypes)
 }
 
+// typedInit builds an initialiser whose inferred type is t.
+func (g *gen) typedInit(t string, d int) *E {
+	e, k := g.expr(t, d, false)
+	if k != "" && defaultOf(k) != t {
+		e = conv(t, e)
+	}
+	return e
+}
+
+// short2 builds `x, y := e1, e2`: two new names, or (mostly) one new name and one variable
+// already declared, which is thereby assigned — not used.
+func (g *gen) short2() *S {
+	d := 1 + g.r.Intn(2)
+	t2 := g.typeForDecl()
+	if len(g.vars) > 0 && !g.chance(4) {
+		v := g.vars[g.r.Intn(len(g.vars))]
+		e1, _ := g.expr(v.t, d, false)
+		e2 := g.typedInit(t2, d)
+		id := g.fresh()
+		g.vars = append(g.vars, gvar{id, t2})
+		if g.r.Bool() {
+			return &S{K: "short2", ID: v.id, ID2: id, A: e1, B: e2}
+		}
+		return &S{K: "short2", ID: id, ID2: v.id, A: e2, B: e1}
+	}
+	t1 := g.typeForDecl()
+	e1, e2 := g.typedInit(t1, d), g.typedInit(t2, d)
+	a, b := g.fresh(), g.fresh()
+	g.vars = append(g.vars, gvar{a, t1}, gvar{b, t2})
+	return &S{K: "short2", ID: a, ID2: b, A: e1, B: e2}
+}
+
 func (g *gen) declaration() *S {
+	if g.chance(6) {
+		return g.short2()
+	}
 	t := g.typeForDecl()
 	d := 1 + g.r.Intn(3)
 	switch g.r.Intn(10) {
@@ -528,7 +563,7 @@ func (g *gen) mutate(p *Prog) (*Prog, string) {
 	}
 	any := func(*E) bool { return true }
 	for try := 0; try < 20; try++ {
-		switch g.r.Intn(20) {
+		switch g.r.Intn(24) {
 		case 0: // change an operand's type: another variable
 			if n := pickNode(func(e *E) bool { return e.K == 'v' }); n != nil && g.next > 1 {
 				id := g.r.Intn(g.next)
@@ -709,6 +744,84 @@ func (g *gen) mutate(p *Prog) (*Prog, string) {
 					n.set(n.e.A)
 				}
 				return q, "drop-operator"
+			}
+		case 19: // a use becomes an assignment: the variable is written, never read
+			var c []*S
+			for _, s := range q.Stmts {
+				if s.K == "blank" && s.A.K == 'v' {
+					c = append(c, s)
+				}
+			}
+			if len(c) > 0 {
+				s := c[g.r.Intn(len(c))]
+				t := "int"
+				for _, v := range g.vars {
+					if v.id == s.A.ID {
+						t = v.t
+					}
+				}
+				s.K, s.ID, s.A = "asg", s.A.ID, zeroLit(t)
+				return q, "use-to-assignment"
+			}
+		case 20: // a use becomes a redeclaration by a multi-name :=
+			var c []int
+			for i, s := range q.Stmts {
+				if s.K == "blank" && s.A.K == 'v' {
+					c = append(c, i)
+				}
+			}
+			if len(c) > 0 {
+				i := c[g.r.Intn(len(c))]
+				s := q.Stmts[i]
+				t := "int"
+				for _, v := range g.vars {
+					if v.id == s.A.ID {
+						t = v.t
+					}
+				}
+				nid := g.next + 2
+				old := s.A.ID
+				*s = S{K: "short2", ID: old, ID2: nid, A: zeroLit(t), B: ilit(1)}
+				if g.r.Bool() {
+					*s = S{K: "short2", ID: nid, ID2: old, A: ilit(1), B: zeroLit(t)}
+				}
+				rest := append([]*S{{K: "blank", A: ident(nid)}}, q.Stmts[i+1:]...)
+				q.Stmts = append(q.Stmts[:i+1:i+1], rest...)
+				return q, "use-to-redeclaration"
+			}
+		case 21: // drop every plain use of one variable
+			if len(g.vars) > 0 {
+				v := g.vars[g.r.Intn(len(g.vars))]
+				var kept []*S
+				for _, s := range q.Stmts {
+					if s.K == "blank" && s.A.K == 'v' && s.A.ID == v.id {
+						continue
+					}
+					kept = append(kept, s)
+				}
+				if len(kept) < len(q.Stmts) && len(kept) > 0 {
+					q.Stmts = kept
+					return q, "drop-uses"
+				}
+			}
+		case 22: // a single := becomes a multi-name := (second name new or existing)
+			var c []*S
+			for _, s := range q.Stmts {
+				if s.K == "short" {
+					c = append(c, s)
+				}
+			}
+			if len(c) > 0 {
+				s := c[g.r.Intn(len(c))]
+				s.K, s.B = "short2", ilit(int64(g.r.Intn(5)))
+				s.ID2 = g.next + 2
+				if g.next > 0 && g.r.Bool() {
+					s.ID2 = g.r.Intn(g.next)
+				}
+				if g.r.Bool() {
+					s.ID, s.ID2, s.A, s.B = s.ID2, s.ID, s.B, s.A
+				}
+				return q, "short-to-multi-short"
 			}
 		default: // an extra unused declaration
 			t := g.pick(basicTypes)
